@@ -164,7 +164,7 @@ def call_order(ck):
 
     def mk():
         log.clear()
-        c = object.__new__(CM.CphotAng)
+        c = harness.partial(CM.CphotAng)
         arrs = [ev.sym(n) for n in names]
         for a, n in zip(arrs, names):
             a.origin = n
